@@ -192,6 +192,22 @@ def strings_contains(ex, args, name):
     return simp(z3.Contains(zstr(s), zstr(p)))
 
 
+@intr('strings.TrimSpace')
+def strings_trimspace(ex, args, name):
+    v = args[0]
+    if isinstance(v, str):
+        return v.strip(' \t\n\v\f\r\x85\xa0')
+    if is_sym(v) and v.sort() == z3.StringSort():
+        # s = lead + core + trail, lead/trail are ASCII white space, core neither starts nor ends with one (Unicode spaces are outside the model)
+        ws = z3.Union(*[z3.Re(c) for c in ' \t\n\v\f\r'])
+        lead, core, trail = ex.fresh('ws', 'str'), ex.fresh('trimmed', 'str'), ex.fresh('ws', 'str')
+        ex.assume(z3.And(v == z3.Concat(lead, core, trail), z3.InRe(lead, z3.Star(ws)), z3.InRe(trail, z3.Star(ws)),
+                         z3.Not(z3.InRe(core, z3.Concat(ws, z3.Full(z3.ReSort(z3.StringSort()))))),
+                         z3.Not(z3.InRe(core, z3.Concat(z3.Full(z3.ReSort(z3.StringSort())), ws)))))
+        return core
+    raise Unsupported('strings.TrimSpace on %r' % (v,))
+
+
 @intr('strings.TrimPrefix')
 def strings_trimprefix(ex, args, name):
     s, p = args
@@ -323,6 +339,22 @@ def time_add(ex, args, name):
     if not is_sym(t) and not is_sym(d):
         return t + d
     return simp(t + d)
+
+
+@intr('(time.Time).Truncate', '(time.Time).Round')
+def time_truncate(ex, args, name):
+    t, d = args
+    if is_sym(d) or d <= 0:
+        if not is_sym(d):
+            return t
+        raise Unsupported(name + ' with a symbolic unit')
+    if 10**9 % d != 0 and d % 10**9 != 0:
+        raise Unsupported(name + ' with a unit that does not divide / is no multiple of one second')
+    if name.endswith('Round'):
+        t2 = t + d // 2
+        return simp(t2 - (t2 % d)) if is_sym(t2) else t2 - (t2 % d)
+    # whole multiples since the zero time; for units dividing a second this is the same as for unix nanoseconds (floor)
+    return simp(t - (t % d)) if is_sym(t) else t - (t % d)
 
 
 @intr('(time.Time).Sub')
